@@ -1,5 +1,6 @@
 import Bpmn.Props.C11
 import Bpmn.Props.C11Current
+import Bpmn.Props.C11Match
 open Bpmn.Props.C11
 #print axioms deliver_once
 #print axioms deliver_is_forward
@@ -18,3 +19,9 @@ open Bpmn.Props.C11
 #print axioms current_verdict
 #print axioms current_kind
 #print axioms current_partial
+#print axioms matches_spec
+#print axioms nothing_matches_end_none_compensation
+#print axioms message_matches_iff
+#print axioms signal_matches_iff
+#print axioms instance_events_match_own_instance
+#print axioms matches_depends_on_definition
